@@ -26,6 +26,17 @@
 #define MAXK 6     /* modelled maximum number of handles in one array handed out by a getter */
 #endif
 
+/* finite conjunction over the MAXK slots of a handle array (pointer-valued quantifier bodies are mis-evaluated by cbmc 6.11) */
+#define EACHK_1(F) (F(0))
+#define EACHK_2(F) (F(0) && F(1))
+#define EACHK_3(F) (EACHK_2(F) && F(2))
+#define EACHK_4(F) (EACHK_3(F) && F(3))
+#define EACHK_6(F) (EACHK_4(F) && F(4) && F(5))
+#define EACHK_8(F) (EACHK_6(F) && F(6) && F(7))
+#define EACHK_12(F) (EACHK_8(F) && F(8) && F(9) && F(10) && F(11))
+#define EACHK_CAT2(n) EACHK_##n
+#define EACHK_CAT(n) EACHK_CAT2(n)
+#define EACH_K(F) EACHK_CAT(MAXK)(F)
 #define NAV_GO(r)   ((r) == CIF_TRAVERSE_CONTINUE || (r) == CIF_TRAVERSE_SKIP_CURRENT)
 #define NAV_SIB(r)  ((r) == CIF_TRAVERSE_SKIP_SIBLINGS)
 #define IS_STOP(r)  (!NAV_GO(r) && !NAV_SIB(r))       /* CIF_TRAVERSE_END or any error code */
@@ -36,6 +47,7 @@
 int g_stopped, g_stop_code;
 void *g_ctx;
 int g_wd;
+int g_depth_limit;   /* modelled maximum nesting depth of save frames (the recursion adds 1 per level) */
 unsigned g_item_calls, g_item_sib;     int g_item_last;
 unsigned g_packet_calls, g_packet_sib; int g_packet_last;
 unsigned g_loop_calls, g_loop_sib;     int g_loop_last;
@@ -44,10 +56,14 @@ unsigned g_block_calls, g_block_sib;   int g_block_last;
 /* the handle / value passed to the latest child walk of each sibling group (identity and order of the visits) */
 void *g_item_arg, *g_packet_arg, *g_loop_arg, *g_frame_arg, *g_block_arg;
 unsigned g_nloops, g_nframes, g_nblocks;
+int g_nloops_got, g_nframes_got, g_nblocks_got;   /* the getter returned CIF_OK */
 int g_npackets_left;
 unsigned g_loops_freed, g_containers_freed, g_itr_closed, g_itr_opened, g_packets_freed;
 /* layout ghosts for the item chain of the packet under verification (harness-built array) */
 struct entry_s *g_ents; unsigned g_nents;
+/* keyed on the container under verification (g_self): how often walk_loops ran for it, how many frame walks had happened then,
+ * and how many frames its getter announced (children of the recursion leave these alone) */
+unsigned g_self_loops_walks, g_self_frames_at_loops, g_self_nframes; int g_self_frames_got;
 /* element under verification */
 void *g_self;
 int g_self_start_ret;
@@ -73,10 +89,10 @@ unsigned g_self_start, g_self_end, g_self_start_snap_a, g_self_start_snap_b, g_s
 #define G_BLOCK  g_block_calls, g_block_sib, g_block_last, g_block_arg
 #define G_STOP   g_stopped, g_stop_code
 #define G_SELF(p) ; (void *)(p) == g_self: g_self_start, g_self_end, g_self_start_ret, g_self_start_snap_a, g_self_start_snap_b, \
-        g_self_end_snap_a, g_self_end_snap_b, g_self_start_at_end
+        g_self_end_snap_a, g_self_end_snap_b, g_self_start_at_end, g_self_loops_walks, g_self_frames_at_loops, g_self_nframes, g_self_frames_got
 #define G_ITER   g_npackets_left, g_itr_closed, g_itr_opened, g_packets_freed
-#define G_LOOPS  g_nloops, g_loops_freed
-#define G_FRAMES g_nframes, g_containers_freed
+#define G_LOOPS  g_nloops, g_nloops_got, g_loops_freed
+#define G_FRAMES g_nframes, g_nframes_got, g_containers_freed
 
 /* ---- the walker -------------------------------------------------------------------------------- */
 
@@ -108,7 +124,7 @@ __CPROVER_ensures(NO_SIBLING_AFTER_STOP(packet))
 
 static int walk_loops(cif_container_tp *container, cif_handler_tp *handler, void *context)
 __CPROVER_requires(HANDLER_OK(handler) && g_stopped == 0 && context == g_ctx && container != NULL)
-__CPROVER_assigns(G_STOP, G_ITEM, G_PACKET, G_LOOP, G_ITER, G_LOOPS)
+__CPROVER_assigns(G_STOP, G_ITEM, G_PACKET, G_LOOP, G_ITER, G_LOOPS G_SELF(container))
 __CPROVER_ensures(STOP_POST(RET))
 __CPROVER_ensures(NO_SIBLING_AFTER_STOP(loop))
 /* the answer handed to walk_container tells it whether a loop cut the group short */
@@ -117,10 +133,13 @@ __CPROVER_ensures((g_loop_sib != OLD(g_loop_sib)) == SIBSTOP(RET) || (g_loop_cal
 __CPROVER_ensures((!IS_STOP(RET) && g_loop_sib == OLD(g_loop_sib)) ==> g_loop_calls == OLD(g_loop_calls) + g_nloops)
 /* every handle is released exactly once on every path */
 __CPROVER_ensures(g_loop_calls != OLD(g_loop_calls) || !IS_STOP(RET) ==> g_loops_freed == OLD(g_loops_freed) + g_nloops)
+/* call-event bookkeeping for the container being verified by the walk_container job (vacuous in walk_loops' own job, where g_self is NULL) */
+__CPROVER_ensures((void *)container == g_self ==> (g_self_loops_walks == OLD(g_self_loops_walks) + 1 && g_self_frames_at_loops == OLD(g_frame_calls)))
+__CPROVER_ensures(GROUP_SAME(frame) && GROUP_SAME(block))
 ;
 
 static int walk_container(cif_container_tp *container, int depth, cif_handler_tp *handler, void *context)
-__CPROVER_requires(HANDLER_OK(handler) && g_stopped == 0 && context == g_ctx && container != NULL && depth >= 0 && depth < 1000000)
+__CPROVER_requires(HANDLER_OK(handler) && g_stopped == 0 && context == g_ctx && container != NULL && depth >= 0 && depth <= g_depth_limit && g_depth_limit < 1000000)
 __CPROVER_assigns(G_STOP, G_ITEM, G_PACKET, G_LOOP, G_ITER, G_LOOPS, G_FRAME, G_FRAMES, G_BLOCK G_SELF(container))
 __CPROVER_ensures(STOP_POST(RET))
 __CPROVER_ensures(NOTSELF(container, depth == g_wd ==> GROUP_POST(frame, RET, container)))
@@ -133,7 +152,7 @@ __CPROVER_ensures(depth + 1 == g_wd ==> NO_SIBLING_AFTER_STOP(frame))
 
 int cif_walk(cif_tp *cif, cif_handler_tp *handler, void *context)
 __CPROVER_requires(HANDLER_OK(handler) && g_stopped == 0 && context == g_ctx)
-__CPROVER_assigns(G_STOP, G_ITEM, G_PACKET, G_LOOP, G_ITER, G_LOOPS, G_FRAME, G_FRAMES, G_BLOCK, g_nblocks G_SELF(cif))
+__CPROVER_assigns(G_STOP, G_ITEM, G_PACKET, G_LOOP, G_ITER, G_LOOPS, G_FRAME, G_FRAMES, G_BLOCK, g_nblocks, g_nblocks_got G_SELF(cif))
 /* CIF_OK for every combination of navigation answers (END included); an error code is returned unchanged */
 __CPROVER_ensures(g_stopped == 0 ==> RET == CIF_OK)
 __CPROVER_ensures(g_stopped != 0 ==> RET == (g_stop_code == CIF_TRAVERSE_END ? CIF_OK : g_stop_code))
@@ -144,29 +163,36 @@ __CPROVER_ensures(NO_SIBLING_AFTER_STOP(block))
 
 int cif_container_get_all_loops(cif_container_tp *container, cif_loop_tp ***loops)
 __CPROVER_requires(container != NULL && __CPROVER_w_ok(loops, sizeof(*loops)))
-__CPROVER_assigns(*loops, g_nloops, G_STOP)
+__CPROVER_assigns(*loops, g_nloops, g_nloops_got, G_STOP)
+__CPROVER_ensures(g_nloops_got == (RET == CIF_OK ? 1 : 0))
 __CPROVER_ensures(RET == CIF_OK ==> (g_nloops <= MAXK && __CPROVER_is_fresh(*loops, (MAXK + 1) * sizeof(cif_loop_tp *)) && (*loops)[g_nloops] == NULL))
-__CPROVER_ensures(RET == CIF_OK ==> __CPROVER_forall { size_t j; (j < MAXK) ==> ((j < g_nloops) ==> (*loops)[j] != NULL) })
+#define F_NONNULL_loop(j) (!((j) < g_nloops) || ((*loops)[j] != NULL && (void *)(*loops)[j] != g_self))   /* handles are new objects */
+__CPROVER_ensures(RET == CIF_OK ==> EACH_K(F_NONNULL_loop))
 __CPROVER_ensures(RET == CIF_OK ==> (g_stopped == OLD(g_stopped) && g_stop_code == OLD(g_stop_code)))
-__CPROVER_ensures(RET != CIF_OK ==> (IS_STOP(RET) && g_stopped == 1 && g_stop_code == RET))
+__CPROVER_ensures(RET != CIF_OK ==> (RET > 0 && IS_STOP(RET) && g_stopped == 1 && g_stop_code == RET)   /* library functions return CIF result codes (>= 0), never traversal directives */)
 ;
 
 int cif_container_get_all_frames(cif_container_tp *container, cif_container_tp ***frames)
 __CPROVER_requires(container != NULL && __CPROVER_w_ok(frames, sizeof(*frames)))
-__CPROVER_assigns(*frames, g_nframes, G_STOP)
+__CPROVER_assigns(*frames, g_nframes, g_nframes_got, G_STOP G_SELF(container))
+__CPROVER_ensures((void *)container == g_self ==> (g_self_nframes == g_nframes && g_self_frames_got == (RET == CIF_OK ? 1 : 0)))
+__CPROVER_ensures(g_nframes_got == (RET == CIF_OK ? 1 : 0))
 __CPROVER_ensures(RET == CIF_OK ==> (g_nframes <= MAXK && __CPROVER_is_fresh(*frames, (MAXK + 1) * sizeof(cif_container_tp *)) && (*frames)[g_nframes] == NULL))
-__CPROVER_ensures(RET == CIF_OK ==> __CPROVER_forall { size_t j; (j < MAXK) ==> ((j < g_nframes) ==> (*frames)[j] != NULL) })
+#define F_NONNULL_frame(j) (!((j) < g_nframes) || ((*frames)[j] != NULL && (void *)(*frames)[j] != g_self))   /* handles are new objects */
+__CPROVER_ensures(RET == CIF_OK ==> EACH_K(F_NONNULL_frame))
 __CPROVER_ensures(RET == CIF_OK ==> (g_stopped == OLD(g_stopped) && g_stop_code == OLD(g_stop_code)))
-__CPROVER_ensures(RET != CIF_OK ==> (IS_STOP(RET) && g_stopped == 1 && g_stop_code == RET))
+__CPROVER_ensures(RET != CIF_OK ==> (RET > 0 && IS_STOP(RET) && g_stopped == 1 && g_stop_code == RET)   /* library functions return CIF result codes (>= 0), never traversal directives */)
 ;
 
 int cif_get_all_blocks(cif_tp *cif, cif_container_tp ***blocks)
 __CPROVER_requires(__CPROVER_w_ok(blocks, sizeof(*blocks)))
-__CPROVER_assigns(*blocks, g_nblocks, G_STOP)
+__CPROVER_assigns(*blocks, g_nblocks, g_nblocks_got, G_STOP)
+__CPROVER_ensures(g_nblocks_got == (RET == CIF_OK ? 1 : 0))
 __CPROVER_ensures(RET == CIF_OK ==> (g_nblocks <= MAXK && __CPROVER_is_fresh(*blocks, (MAXK + 1) * sizeof(cif_container_tp *)) && (*blocks)[g_nblocks] == NULL))
-__CPROVER_ensures(RET == CIF_OK ==> __CPROVER_forall { size_t j; (j < MAXK) ==> ((j < g_nblocks) ==> (*blocks)[j] != NULL) })
+#define F_NONNULL_block(j) (!((j) < g_nblocks) || ((*blocks)[j] != NULL && (void *)(*blocks)[j] != g_self))   /* handles are new objects */
+__CPROVER_ensures(RET == CIF_OK ==> EACH_K(F_NONNULL_block))
 __CPROVER_ensures(RET == CIF_OK ==> (g_stopped == OLD(g_stopped) && g_stop_code == OLD(g_stop_code)))
-__CPROVER_ensures(RET != CIF_OK ==> (IS_STOP(RET) && g_stopped == 1 && g_stop_code == RET))
+__CPROVER_ensures(RET != CIF_OK ==> (RET > 0 && IS_STOP(RET) && g_stopped == 1 && g_stop_code == RET)   /* library functions return CIF result codes (>= 0), never traversal directives */)
 ;
 
 void cif_loop_free(cif_loop_tp *loop)
@@ -187,7 +213,7 @@ __CPROVER_assigns(*iterator, g_npackets_left, g_itr_opened, G_STOP)
 __CPROVER_ensures(RET == CIF_OK ==> (*iterator != NULL && g_npackets_left >= 1 && g_npackets_left <= 1000000))
 __CPROVER_ensures(g_itr_opened == OLD(g_itr_opened) + (RET == CIF_OK ? 1 : 0))
 __CPROVER_ensures(RET == CIF_OK ==> (g_stopped == OLD(g_stopped) && g_stop_code == OLD(g_stop_code)))
-__CPROVER_ensures(RET != CIF_OK ==> (IS_STOP(RET) && g_stopped == 1 && g_stop_code == RET))
+__CPROVER_ensures(RET != CIF_OK ==> (RET > 0 && IS_STOP(RET) && g_stopped == 1 && g_stop_code == RET)   /* library functions return CIF result codes (>= 0), never traversal directives */)
 ;
 
 /* delivers the packets one by one, then CIF_FINISHED; any other code is an error (a stop) */
@@ -196,16 +222,15 @@ __CPROVER_requires(iterator != NULL && __CPROVER_w_ok(packet, sizeof(*packet)) &
 __CPROVER_assigns(*packet, g_npackets_left, G_STOP)
 __CPROVER_ensures(RET == CIF_OK ==> (OLD(g_npackets_left) > 0 && g_npackets_left == OLD(g_npackets_left) - 1 && *packet != NULL && (void *)*packet != g_self && g_stopped == 0))
 __CPROVER_ensures(RET == CIF_FINISHED ==> (OLD(g_npackets_left) == 0 && g_npackets_left == 0 && g_stopped == 0))
-__CPROVER_ensures((RET != CIF_OK && RET != CIF_FINISHED) ==> (IS_STOP(RET) && g_stopped == 1 && g_stop_code == RET))
+__CPROVER_ensures((RET != CIF_OK && RET != CIF_FINISHED) ==> (RET > 0 && IS_STOP(RET) && g_stopped == 1 && g_stop_code == RET)   /* library functions return CIF result codes (>= 0), never traversal directives */)
 ;
 
+/* closing is assumed to succeed: a failing COMMIT is a resource error outside C14 (listed in the evidence) */
 int cif_pktitr_close(cif_pktitr_tp *iterator)
 __CPROVER_requires(iterator != NULL)
-__CPROVER_assigns(g_itr_closed, G_STOP)
+__CPROVER_assigns(g_itr_closed)
 __CPROVER_ensures(g_itr_closed == OLD(g_itr_closed) + 1)
-__CPROVER_ensures(RET == CIF_OK || (IS_STOP(RET) && RET != CIF_FINISHED))
-__CPROVER_ensures((RET == CIF_OK || OLD(g_stopped)) ==> (g_stopped == OLD(g_stopped) && g_stop_code == OLD(g_stop_code)))
-__CPROVER_ensures((RET != CIF_OK && !OLD(g_stopped)) ==> (g_stopped == 1 && g_stop_code == RET))
+__CPROVER_ensures(RET == CIF_OK)
 ;
 
 void cif_packet_free(cif_packet_tp *packet)
